@@ -423,4 +423,148 @@ theorem splitWS_decomp (l : Str) : splitWS l = (decomp l).2.map (·.1) := by
     rw [ih (fun x hx => h4 x (List.mem_cons_of_mem _ hx))]
     rfl
 
+/-! ### all variables of a settings dict, one after the other -/
+
+/-- no variable of `K` occurs anywhere in `t` -/
+def KeyFree (K : List Str) (t : Str) : Prop := ∀ k ∈ K, ¬ k <:+: t
+
+/-- a variable of `K` occurs in `t` only if `t` is that variable -/
+def Good (K : List Str) (t : Str) : Prop := ∀ k ∈ K, k <:+: t → t = k
+
+theorem KeyFree.good {K : List Str} {t : Str} (h : KeyFree K t) : Good K t :=
+  fun k hk hi => absurd hi (h k hk)
+
+/-- what the successive replacements make of one piece -/
+def foldItem (spl : List Str) : Settings → Str → Str
+  | [], t => t
+  | (k, v) :: r, t => foldItem spl r (if k ∈ spl ∧ t = k then v else t)
+
+theorem sepOK_map_fst (f : Str → Str) : ∀ (items : List (Str × Str)), SepOK items →
+    SepOK (items.map (fun tw => (f tw.1, tw.2))) := by
+  intro items
+  induction items with
+  | nil => intro h; exact h
+  | cons tw r ih =>
+    intro h
+    obtain ⟨a, b, c⟩ := h
+    refine ⟨a, ?_, ih c⟩
+    rcases b with b | b
+    · exact Or.inl b
+    · right; subst b; rfl
+
+theorem substLine_items (K spl : List Str) (hspl : ∀ tok ∈ spl, NoWS tok ∧ tok ≠ [])
+    (w0 : Str) (hw0 : AllWS w0) : ∀ (s' : Settings) (items : List (Str × Str)),
+    (∀ kv ∈ s', kv.1 ∈ K ∧ KeyFree K kv.2) → SepOK items → (∀ tw ∈ items, Good K tw.1) →
+    substLine spl s' (w0 ++ body items)
+      = w0 ++ body (items.map (fun tw => (foldItem spl s' tw.1, tw.2))) := by
+  intro s'
+  induction s' with
+  | nil => intro items _ _ _; simp [substLine, foldItem]
+  | cons kv r ih =>
+    intro items hs hsep hgood
+    obtain ⟨k, v⟩ := kv
+    have hk := hs (k, v) (by simp)
+    have hr : ∀ kv ∈ r, kv.1 ∈ K ∧ KeyFree K kv.2 := fun kv h => hs kv (List.mem_cons_of_mem _ h)
+    by_cases hin : k ∈ spl
+    · have hcond : ∀ tw ∈ items, tw.1 = k ∨ ¬ k <:+: tw.1 := by
+        intro tw htw
+        by_cases hi : k <:+: tw.1
+        · exact Or.inl (hgood tw htw k hk.1 hi)
+        · exact Or.inr hi
+      simp only [substLine, hin, if_true]
+      rw [replaceGo_line k v w0 (hspl k hin).2 (hspl k hin).1 hw0 items hsep hcond]
+      rw [ih (items.map (subst1 k v)) hr (sepOK_map k v items hsep)]
+      · congr 2
+        rw [List.map_map]
+        apply List.map_congr_left
+        intro tw _
+        simp [subst1, foldItem, hin]
+      · intro tw htw
+        obtain ⟨tw0, h0, rfl⟩ := List.mem_map.1 htw
+        simp only [subst1]
+        by_cases e : tw0.1 = k
+        · simp only [e, if_true]; exact hk.2.good
+        · simp only [e, if_false]; exact hgood tw0 h0
+    · simp only [substLine, hin, if_false]
+      rw [ih items hr hsep hgood]
+      congr 2
+      apply List.map_congr_left
+      intro tw _
+      simp [foldItem, hin]
+
+theorem foldItem_keyFree (K spl : List Str) : ∀ (s' : Settings) (t : Str),
+    (∀ kv ∈ s', kv.1 ∈ K) → KeyFree K t → foldItem spl s' t = t := by
+  intro s'
+  induction s' with
+  | nil => intro t _ _; rfl
+  | cons kv r ih =>
+    intro t hs ht
+    obtain ⟨k, v⟩ := kv
+    have hne : t ≠ k := by
+      intro e; subst e
+      exact ht t (hs (t, v) (by simp)) (List.infix_refl t)
+    simp only [foldItem, hne, and_false, if_false]
+    exact ih t (fun kv h => hs kv (List.mem_cons_of_mem _ h)) ht
+
+/-- a token of the original line ends up as a value (which contains no variable) or stays as it
+    is, the latter only if it is not a variable -/
+theorem foldItem_cases (K spl : List Str) : ∀ (s' : Settings) (t : Str),
+    (∀ kv ∈ s', kv.1 ∈ K ∧ KeyFree K kv.2) → t ∈ spl →
+    KeyFree K (foldItem spl s' t) ∨ (foldItem spl s' t = t ∧ t ∉ keys s') := by
+  intro s'
+  induction s' with
+  | nil => intro t _ _; right; exact ⟨rfl, by simp [keys]⟩
+  | cons kv r ih =>
+    intro t hs ht
+    obtain ⟨k, v⟩ := kv
+    have hr : ∀ kv ∈ r, kv.1 ∈ K ∧ KeyFree K kv.2 := fun kv h => hs kv (List.mem_cons_of_mem _ h)
+    by_cases e : t = k
+    · subst e
+      left
+      simp only [foldItem, ht, and_self, if_true]
+      rw [foldItem_keyFree K spl r v (fun kv h => (hr kv h).1) (hs (t, v) (by simp)).2]
+      exact (hs (t, v) (by simp)).2
+    · simp only [foldItem, e, and_false, if_false]
+      rcases ih t hr ht with h | ⟨h1, h2⟩
+      · exact Or.inl h
+      · right
+        refine ⟨h1, ?_⟩
+        simp only [keys, List.map_cons, List.mem_cons, not_or]
+        exact ⟨e, h2⟩
+
+/-- **no variable remains on an edited line**, provided no value contains a variable (G1) and
+    no token of the line contains a variable as a proper substring (G2) -/
+theorem substOf_no_var (s : Settings) (l : Str)
+    (G1 : ∀ kv ∈ s, KeyFree (keys s) kv.2) (G2 : ∀ tok ∈ splitWS l, Good (keys s) tok) :
+    ∀ k ∈ keys s, k ∉ splitWS (substOf s l) := by
+  intro k hk hmem
+  obtain ⟨h1, h2, h3, h4⟩ := decomp_spec l
+  have hspl : splitWS l = (decomp l).2.map (·.1) := splitWS_decomp l
+  generalize hd : (decomp l).2 = items at h1 h3 h4 hspl
+  generalize hw : (decomp l).1 = w0 at h1 h2
+  have htok : ∀ tok ∈ splitWS l, NoWS tok ∧ tok ≠ [] := by
+    intro tok h
+    rw [hspl] at h
+    obtain ⟨tw, htw, rfl⟩ := List.mem_map.1 h
+    exact h4 tw htw
+  have hs : ∀ kv ∈ s, kv.1 ∈ keys s ∧ KeyFree (keys s) kv.2 :=
+    fun kv h => ⟨List.mem_map.2 ⟨kv, h, rfl⟩, G1 kv h⟩
+  have hgood : ∀ tw ∈ items, Good (keys s) tw.1 := by
+    intro tw htw
+    exact G2 tw.1 (by rw [hspl]; exact List.mem_map.2 ⟨tw, htw, rfl⟩)
+  have hsub := substLine_items (keys s) (splitWS l) htok w0 h2 s items hs h3 hgood
+  rw [← h1] at hsub
+  unfold substOf at hmem
+  rw [hsub, splitWS_line w0 h2 _ (sepOK_map_fst _ items h3)] at hmem
+  simp only [List.map_map, List.mem_flatten, List.mem_map, Function.comp] at hmem
+  obtain ⟨toks, ⟨tw, htw, rfl⟩, hk'⟩ := hmem
+  have hinf : k <:+: foldItem (splitWS l) s tw.1 := splitWS_mem_infix hk'
+  have htw_spl : tw.1 ∈ splitWS l := by rw [hspl]; exact List.mem_map.2 ⟨tw, htw, rfl⟩
+  rcases foldItem_cases (keys s) (splitWS l) s tw.1 hs htw_spl with h | ⟨e, hnk⟩
+  · exact h k hk hinf
+  · rw [e] at hinf
+    have := hgood tw htw k hk hinf
+    rw [this] at hnk
+    exact hnk hk
+
 end Infretis.Template
